@@ -295,7 +295,11 @@ func reqStart(batch string, pid int, created time.Time, tasks []requests.Signing
 	var sb strings.Builder
 	fmt.Fprintf(&sb, "start %d %d %d %d", tok.Tok(batch), pid, tsec(created), len(tasks))
 	for _, t := range tasks {
-		fmt.Fprintf(&sb, " %d %d %d %d", len(t.MessageID), len(t.Payload), t.RangeStart, t.RangeEnd)
+		pl := len(t.Payload)
+		if t.Payload == nil {
+			pl = -1 // no payload at all (a baked range), as opposed to an explicit empty one
+		}
+		fmt.Fprintf(&sb, " %d %d %d %d", len(t.MessageID), pl, t.RangeStart, t.RangeEnd)
 	}
 	src, _ := json.Marshal(tasks)
 	fmt.Fprintf(&sb, " %d", tok.TokB(src))
